@@ -1579,6 +1579,31 @@ func (e *Engine) step(st *State, fr *Frame, instr ssa.Instruction) {
 			if !isC || off != 0 {
 				panic(unsupported("SliceToArrayPointer with non-zero offset"))
 			}
+			// the backing array may be longer than the array type: when the
+			// pointer is only dereferenced (the [N]T(s) conversion), hand out
+			// a copy of the first n elements
+			if root, have := st.heap[al.Base.Obj]; have {
+				if av, isArr := readPath(root, al.Base.Path).(*ArrayV); isArr && int64(len(av.E)) != n {
+					onlyLoads := true
+					for _, r := range *ins.Referrers() {
+						if u, ok := r.(*ssa.UnOp); !ok || u.Op != token.MUL {
+							onlyLoads = false
+						}
+					}
+					if !onlyLoads || int64(len(av.E)) < n {
+						if int64(len(av.E)) < n {
+							// conversion fails (obligation above); any value will do on this dead path
+							out.A = append(out.A, PtrAlt{G: al.G, L: e.alloc(st, zeroValue(ins.Type().Underlying().(*types.Pointer).Elem()))})
+							continue
+						}
+						panic(unsupported("SliceToArrayPointer into a longer backing array with the pointer escaping at " + site))
+					}
+					cp := make([]Value, n)
+					copy(cp, av.E[:n])
+					out.A = append(out.A, PtrAlt{G: al.G, L: e.alloc(st, &ArrayV{E: cp, T: av.T})})
+					continue
+				}
+			}
 			out.A = append(out.A, PtrAlt{G: al.G, L: al.Base})
 		}
 		e.oblige(st, "panic-free", "slice2arr@"+site, site, And(okc...))
